@@ -170,8 +170,10 @@ ValidateMessage(st, a) ==
 (* call_contract(caller, destination_chain, destination_address, payload) *)
 CallContract(st, a) ==
     IF ~NamedAuth(a, a.caller) THEN Rej(st, "named_auth", {"named_auth"})
-    ELSE Acc(st, "unit", <<[k |-> "contract_called", caller |-> a.caller, chain |-> a.chain,
-                            addr |-> a.addr, payload |-> a.payload, ph |-> a.payload]>>)
+    ELSE LET n == IF "times" \in DOMAIN a THEN a.times ELSE 1      \* the same call made n times in one transaction
+             e == [k |-> "contract_called", caller |-> a.caller, chain |-> a.chain,
+                   addr |-> a.addr, payload |-> a.payload, ph |-> a.payload]
+         IN Acc(st, "unit", [i \in 1..n |-> e])                     \* every call is announced, also a repeated one
 
 (* An application behind the executable interface (contracts/example, or any app using
    AxelarExecutableInterface::validate_message): execute(source_chain, message_id, source_address,
@@ -223,6 +225,8 @@ Construct(st, a) ==
          ELSE Acc([f.st EXCEPT !.deployed = TRUE], "unit", f.ev)
 
 -----------------------------------------------------------------------------
+(* verification hook (harness only, never a contract entry point): the Upgradable interface's migration window is
+   opened without swapping code.  The window belongs to another interface: nothing in this module may depend on it *)
 Apply(st, a) ==
     CASE a.name = "Construct"            -> Construct(st, a)
       [] a.name = "ApproveMessages"      -> ApproveMessages(st, a)
@@ -234,6 +238,7 @@ Apply(st, a) ==
       [] a.name = "TransferOwnership"    -> TransferOwnership(st, a)
       [] a.name = "TransferOperatorship" -> TransferOperatorship(st, a)
       [] a.name = "Tick"                 -> Tick(st, a)
+      [] a.name = "HookOpenWindow"      -> Acc(st, "unit", <<>>)
 
 -----------------------------------------------------------------------------
 (* state invariants of the design (checked by every instance) *)
